@@ -635,13 +635,15 @@ def main():
         if b >= 2**63: hist["budget>=2^63"] += 1
         if cc >= 5 and b >= 1 and (b >= cc - 8):
             nontriv.add(tuple(c[:5]))
-    chk.cov["evaluations"] = len(cases) * 2 * 4 + len(insts) * 2 * 2 * 4
+    chk.cov["evaluations"] = (len(cases) * 2 * 4 + len(insts) * 2 * 2 * 4 + 2 * hi_cov.get("histories", 0) + 2 * ct_cov.get("trace_budget_cases", 0)
+                              + 2 * ct_cov.get("straight_line", {}).get("templates", 0))
     chk.cov["renders"] = len(infos)
     chk.cov["programs"] = nprogs
     chk.cov["budget_cases"] = len(cases)
     chk.cov["distinct_nontrivial"] = len(nontriv)
-    chk.cov["rule"] = ("%d template programs (macros, call blocks, includes, include chains, inheritance with super(), imports, self.block(), recursive loops, "
-                       "renders ending in an error) x parameter triples (n,m,k) = renders; per render: unlimited run, run at 2^40 (cost c and probe positions), then EVERY "
+    chk.cov["rule"] = ("%d template programs (macros, call blocks, includes, include chains, inheritance with super() emitted and in every operand position "
+                       "at extends depth 1..3, imports, self.block(), recursive loops, macros / includes / call blocks in value position, host functions, filters, tests and a "
+                       "custom formatter that re-enter the interpreter, renders ending in an error) x parameter triples (n,m,k) = renders; per render: unlimited run, run at 2^40 (cost c and probe positions), then EVERY "
                        "budget in [0,c+3] when c<=300 (else 0..16, c-48..c+3 and 48 seeded ones) plus 2^31, 2^32, 2^62, 2^63-1, 2^63, 2^63+1, 2^64-2, 2^64-1; every case "
                        "in a debug and a release build, each render 3 times (third on another thread); evaluations = renders executed; non-trivial = distinct "
                        "(program,n,m,k,budget) with cost >= 5 and budget >= max(1, c-8), i.e. around or above the threshold of a render that charges instructions" % nprogs)
